@@ -31,7 +31,7 @@ def one(d):
     finally:
         shutil.rmtree(tmp, ignore_errors=True)
 
-dirs = [a for a in sys.argv[1:] if not a.startswith("--")] or sorted(glob.glob(os.path.join(VERIF, "seeded", "*")))
+dirs = [os.path.abspath(a) for a in sys.argv[1:] if not a.startswith("--")] or sorted(glob.glob(os.path.join(VERIF, "seeded", "*")))
 miss = 0
 with ThreadPoolExecutor(max_workers=8) as ex:
     for name, prop, caught, und, reports, err in ex.map(one, dirs):
